@@ -14,17 +14,30 @@ DISCARD_OK = {
         "best-effort prune after the snapshot is durable: a stale segment that survives is skipped by version at replay",
 }
 
-# reviewed unwrap/expect sites on values that carry no I/O error: (caller, callee, receiver type prefix) -> reason
-UNWRAP_OK = {
-    ("settings::SettingsPersister::save", "std::result::Result::unwrap", "std::result::Result<std::string::String, serde_json::Error>"):
-        "serde_json::to_string of a plain struct of integers/bools cannot fail",
-    ("index::manager::Index::<K>::apply_wal_op_unsafe", "std::result::Result::expect",
-     "std::result::Result<std::vec::Vec<types::BlobHash>, index::state::IndexStateError>"):
-        "logic invariant (refcount balance, C07-R2), not an I/O result; the record is already durable",
-    ("index::manager::Index::<K>::load::{closure}", "std::result::Result::expect",
-     "std::result::Result<std::vec::Vec<types::BlobHash>, index::state::IndexStateError>"):
-        "logic invariant while replaying a checksum-verified record",
+# reviewed unwrap/expect sites on extern error types, keyed by the call that produced the Result (not by the
+# name of the enclosing function): producing callee -> reason
+UNWRAP_OK_BY_PRODUCER = {
+    "serde_json::to_string": "serde_json::to_string of a plain struct of integers/bools cannot fail (no I/O involved)",
 }
+UNWRAP_OK = {}
+
+
+def error_type_is_io_free(prog, ty_ix):
+    """Is the E of Result<T, E> a crate-local type that (transitively) holds no io::Error / boxed dyn Error?"""
+    t = prog.types[ty_ix]
+    if t.get("k") != "adt" or t["def"] != "std::result::Result":
+        return False
+    a = [x for x in t["args"] if isinstance(x, int)]
+    if len(a) < 2:
+        return False
+    e = a[1]
+    et = prog.types[e]
+    if et.get("k") != "adt" or et["def"] not in prog.adts:
+        return False
+    bad = prog.find_in_type(e, lambda x: (x.get("k") == "adt" and x["def"] in ("std::io::Error",)) or x.get("k") == "dyn"
+                            or (x.get("k") == "adt" and not x.get("local") and x["def"].endswith("Error")
+                                and x["def"] not in ("hex::FromHexError", "std::num::ParseIntError", "std::str::Utf8Error")))
+    return not bad
 
 IO_ERROR_MARKERS = ("std::io::Error", "WalError", "IoError", "LibError", "CasManagerError", "PersisterError",
                     "IndexError", "TransactionError", "SettingsError")
@@ -176,10 +189,18 @@ def rules(ctx, tier):
                         "%s at %s: the Option was just filled on every path" % (what, site_where(site)),
                         "%s on an Option at %s that is not provably Some" % (what, site_where(site)), site_where(site))
             else:
-                ok = any(k[0] == key[0] and k[1] == key[1] and tstr.startswith(k[2]) for k in UNWRAP_OK)
-                r.check(ok, "unwrap-other:%s:%s" % (stable_path(b).split("::")[-1], tstr.split("<")[1][:40]), b,
-                        "%s on %s at %s (reviewed: no I/O error inside)" % (what, tstr, site_where(site)),
-                        "%s on %s at %s is not in the reviewed table" % (what, tstr, site_where(site)), site_where(site))
+                why = None
+                if error_type_is_io_free(prog, ctx.world._place_ty(b, pl)):
+                    why = "the error type is a crate-local logic error that carries no I/O error"
+                else:
+                    sl2 = Slicer(ctx.world, b, follow_local=False)
+                    for l in sl2.leaves_of_operand(site.term["args"][0]):
+                        if l[0] == "call" and l[1] in UNWRAP_OK_BY_PRODUCER:
+                            why = UNWRAP_OK_BY_PRODUCER[l[1]]
+                r.check(why is not None, "unwrap-other:%s" % tstr.split(",")[-1].strip(" >")[-40:], b,
+                        "%s on %s at %s: %s" % (what, tstr, site_where(site), why),
+                        "%s on %s at %s: cannot show that no I/O failure can reach it" % (what, tstr, site_where(site)),
+                        site_where(site))
     r.need(4, "unwrap/expect sites reachable from the API")
     out.append(r.finish())
 
